@@ -51,6 +51,10 @@ type CallSpec struct {
 	Chain    bool     `json:"chain,omitempty"` // recv.fn(args).fn(): the result of the first call is the receiver of the second
 	Loop     []int64  `json:"loop,omitempty"`
 	LoopArgs []string `json:"loopargs,omitempty"`
+	// Mixed: ONE call site, {{ o.v.NAME() }} inside @each(o in objs), evaluated once per element within one
+	// render with receivers of different types (the elements are objects whose field v holds them)
+	Mixed     []Val    `json:"mixed,omitempty"`
+	MixedType []string `json:"mixedtype,omitempty"`
 }
 
 var loopArgKinds = []string{"x", "-x", "[x]", "[-x]", "[[0, -x]]", "{n: -x}", "{n: x, m: [x]}", "(x + 1)", "[-x, x]"}
@@ -274,6 +278,13 @@ func (c CallSpec) build() (string, *Val) {
 	if c.Site {
 		return "{{ x." + c.Name + "() }}", &Val{T: "map", K: []string{"x"}, V: []Val{c.RecvVal}}
 	}
+	if len(c.Mixed) > 0 {
+		objs := Val{T: "arr"}
+		for _, v := range c.Mixed {
+			objs.A = append(objs.A, VMap([]string{"v"}, []Val{v}))
+		}
+		return "@each(o in objs){{ o.v." + c.Name + "() }};@end", &Val{T: "map", K: []string{"objs"}, V: []Val{objs}}
+	}
 	data := &Val{T: "map"}
 	nv := 0
 	ref := func(v Val, lit bool) string {
@@ -436,6 +447,15 @@ func genCall(r *Rng, typ, name string, viaTpl bool) CallSpec {
 	}
 	if r.Chance(15) && (name == "foo" || name == "bar") {
 		// only for names that are no built-in of any type: the chain then stays within one receiver type
+		if !viaTpl && r.Chance(50) {
+			// ... or one call site that meets receivers of several types within one render
+			m := CallSpec{Recv: typ, Name: name, RecvVal: c.RecvVal, Mixed: []Val{c.RecvVal}, MixedType: []string{typ}}
+			for i, n := 0, r.Range(1, 3); i < n; i++ {
+				t := Pick(r, c20Types)
+				m.Mixed, m.MixedType = append(m.Mixed, genRecv(r, t)), append(m.MixedType, t)
+			}
+			return m
+		}
 		c.Chain = true
 		return c
 	}
@@ -636,6 +656,43 @@ func c20Check(sc *Scenario, acc *Acc) (*c20Fail, int) {
 				}
 				if len(newCalls) != 0 {
 					return &c20Fail{"builtin-shadowed", "a built-in of that name exists but the custom function was invoked", "no invocation", fmt.Sprint(len(newCalls), " invocations")}, i
+				}
+			case len(c.Mixed) > 0:
+				// per element, in order: the function registered for THAT element's type, or the error
+				// for that type at the first element that has none (nothing is evaluated after it)
+				exp, k := "", 0
+				for j, v := range c.Mixed {
+					t := c.MixedType[j]
+					efn, ok := model[t+"/"+c.Name]
+					if !ok {
+						if o.Kind != "err" || !strings.Contains(o.Err, c.Name) || !strings.Contains(o.Err, typeConst(t)) {
+							return &c20Fail{"mixed-site-unregistered-type", "one call site, several receiver types in one render: an element whose type has no function of that name does not fail the render with the error naming the function and that type", c.Name + " / " + typeConst(t), o.Short()}, i
+						}
+						exp = ""
+						break
+					}
+					if k >= len(newCalls) {
+						return &c20Fail{"mixed-site-not-called", "one call site, several receiver types in one render: a registered function is not invoked for its element", fmt.Sprint(k+1, " invocation(s) at least"), fmt.Sprintf("%d invocations; %s", len(newCalls), o.Short())}, i
+					}
+					got := newCalls[k]
+					k++
+					if got.Fn != efn {
+						return &c20Fail{"mixed-site-wrong-function", "one call site, several receiver types in one render: an element reaches another function than the one registered for (its type, name)", fmt.Sprint("fn", efn, " for ", t), fmt.Sprint("fn", got.Fn)}, i
+					}
+					want := recvNative(CallSpec{Recv: t, RecvVal: v})
+					if !sameContent(got.Recv, want) {
+						return &c20Fail{"receiver-conversion", "the function does not receive the receiver as the plain Go value of the same content", Describe(want), Describe(got.Recv)}, i
+					}
+					exp += c20AsData(Catalogue(t, efn, copyAny(got.Recv), copyAny([]any(got.Args)).([]any)), false) + ";"
+					if j == len(c.Mixed)-1 && (o.Kind != "ok" || o.Out != exp) {
+						return &c20Fail{"result-conversion", "the function's result does not appear as if that Go value had been passed as data", fmt.Sprintf("%q", exp), o.Short()}, i
+					}
+				}
+				if k != len(newCalls) {
+					return &c20Fail{"wrong-function", "one call site, several receiver types in one render: more invocations than elements with a registered function", fmt.Sprint(k), fmt.Sprint(len(newCalls))}, i
+				}
+				if acc != nil {
+					acc.Probe("one-call-site-several-receiver-types-in-one-render", 1)
 				}
 			case registered:
 				recv := recvNative(c)
